@@ -12,6 +12,7 @@ package main
 import (
 	"bytes"
 	"fmt"
+	"os"
 	"strconv"
 	"sync/atomic"
 	"time"
@@ -202,8 +203,19 @@ var (
 	curSince atomic.Int64
 )
 
-func enter(c *Case) { curCase.Store(c); curSince.Store(time.Now().UnixNano()) }
-func leave()        { curCase.Store(nil) }
+// traceFile (flag -trace): every case is written, unbuffered, BEFORE it is executed, so that after a death of the
+// process that no recover can catch (stack overflow, out of memory, a fault outside the guarded kernels) the last line
+// names the input; used only for the re-run the check driver makes after such a death
+var traceFile *os.File
+
+func enter(c *Case) {
+	if traceFile != nil {
+		traceFile.WriteString(c.line() + "\n")
+	}
+	curCase.Store(c)
+	curSince.Store(time.Now().UnixNano())
+}
+func leave() { curCase.Store(nil) }
 
 func callStr(d *fnDef, c *Case) (res string) {
 	defer func() {
